@@ -239,6 +239,10 @@ func New(cfg *Config) (*Server, error) {
 		HandlerFunc(proxy.pinLsHandler).
 		Name("PinLs")
 	hijackSubrouter.
+		Path("/pin/update/{arg}").
+		HandlerFunc(slashHandlerPrepend(proxy.pinUpdateHandler)).
+		Name("PinUpdateSlash") // supports people using the API wrong.
+	hijackSubrouter.
 		Path("/pin/update").
 		HandlerFunc(proxy.pinUpdateHandler).
 		Name("PinUpdate")
@@ -726,6 +730,18 @@ func (proxy *Server) repoGCHandler(w http.ResponseWriter, r *http.Request) {
 // into an /a/b/c/<argument>?arg=<argument> one. And uses the given origHandler
 // for it. Our handlers expect that arguments are passed in the ?arg query
 // value.
+// slashHandlerPrepend is like slashHandler for commands taking several
+// arguments: the path argument becomes the first "arg" and the ones given in
+// the query follow it.
+func slashHandlerPrepend(origHandler http.HandlerFunc) http.HandlerFunc {
+	return func(w http.ResponseWriter, r *http.Request) {
+		q := r.URL.Query()
+		q["arg"] = append([]string{mux.Vars(r)["arg"]}, q["arg"]...)
+		r.URL.RawQuery = q.Encode()
+		origHandler(w, r)
+	}
+}
+
 func slashHandler(origHandler http.HandlerFunc) http.HandlerFunc {
 	return func(w http.ResponseWriter, r *http.Request) {
 		warnMsg := "You are using an undocumented form of the IPFS API. "
